@@ -387,21 +387,32 @@ fn main() {
             }
         }
     }
-    // boundary-first subsample: offsets within 3 bytes of a decision boundary are always kept
-    let boundary = |c: &Case| { let k = c.seg as i64 - c.off as i64; [c.estimate() as i64, c.actual() as i64].iter().any(|b| (k - b).abs() <= 2) || c.off == 48 };
-    let (mut keep, mut rest): (Vec<Case>, Vec<Case>) = cands.into_iter().partition(|c| boundary(c));
-    if keep.len() > budget { for i in (1..keep.len()).rev() { let j = rng.below(i as u64 + 1) as usize; keep.swap(i, j); } keep.truncate(budget); }
-    for i in (1..rest.len()).rev() { let j = rng.below(i as u64 + 1) as usize; rest.swap(i, j); }
-    rest.truncate(budget.saturating_sub(keep.len()));
-    keep.extend(rest);
-    // the database is reused for consecutive cases of one configuration: chunks of 24 cases of one (seg, comp),
-    // chunks in random order, so that a run cut short by the time budget still covers every configuration
-    let mut groups: std::collections::BTreeMap<(usize, bool), Vec<Case>> = std::collections::BTreeMap::new();
-    for c in keep { groups.entry((c.seg, c.comp)).or_default().push(c); }
+    // priority classes: 0 = exactly on a decision boundary (free space = estimate or = stored size, one byte less, or an
+    // empty segment), 1 = within 2 bytes of one, 2 = the rest.  Each class is shuffled; the case budget is filled in
+    // priority order; the run order is class by class too, so a run cut short by the time budget loses the least
+    // interesting cases
+    let class = |c: &Case| -> u8 {
+        let k = c.seg as i64 - c.off as i64;
+        let d = [c.estimate() as i64, c.actual() as i64].iter().map(|b| (k - b).abs()).min().unwrap();
+        let below = [c.estimate() as i64, c.actual() as i64].iter().any(|b| k - b == -1);
+        if d == 0 || below || c.off == 48 { 0 } else if d <= 2 { 1 } else { 2 }
+    };
+    let mut by_class: [Vec<Case>; 3] = [vec![], vec![], vec![]];
+    for c in cands { let i = class(&c) as usize; by_class[i].push(c); }
     let mut chunks: Vec<Vec<Case>> = Vec::new();
-    for (_, v) in groups { for ch in v.chunks(24) { chunks.push(ch.to_vec()); } }
-    for i in (1..chunks.len()).rev() { let j = rng.below(i as u64 + 1) as usize; chunks.swap(i, j); }
-    let secs: u64 = std::env::var("SV_BUDGET_S").ok().and_then(|x| x.parse().ok()).unwrap_or(if thorough { 840 } else { 60 });
+    let mut left = budget;
+    for v in by_class.iter_mut() {
+        for i in (1..v.len()).rev() { let j = rng.below(i as u64 + 1) as usize; v.swap(i, j); }
+        v.truncate(left); left -= v.len();
+        // the database is reused for consecutive cases of one configuration: chunks of 24 cases of one (seg, comp)
+        let mut groups: std::collections::BTreeMap<(usize, bool), Vec<Case>> = std::collections::BTreeMap::new();
+        for c in v.drain(..) { groups.entry((c.seg, c.comp)).or_default().push(c); }
+        let mut cs: Vec<Vec<Case>> = Vec::new();
+        for (_, g) in groups { for ch in g.chunks(24) { cs.push(ch.to_vec()); } }
+        for i in (1..cs.len()).rev() { let j = rng.below(i as u64 + 1) as usize; cs.swap(i, j); }
+        chunks.extend(cs);
+    }
+    let secs: u64 = std::env::var("SV_BUDGET_S").ok().and_then(|x| x.parse().ok()).unwrap_or(if thorough { 840 } else { 45 });
     // Databases opened in one process leave file descriptors behind: run the cases in child processes of at most
     // 40 chunks (960 cases) each; a child stops at the deadline
     let deadline = now_secs() + secs;
